@@ -39,8 +39,11 @@ def run(ctx, cfg, fnpath, uninterpreted=None, inline=(), **kw):
         raise X.Unanalysable('anchor function %s not found' % fnpath)
     un = uninterpreted or (lambda p: not any(p.endswith(k) for k in inline))
     hyps = kw.pop('hyps', None)
+    exact = kw.pop('exact_casts', None)
     ip = X.Interp(cr, uninterpreted=un, **kw)
     ip.hyps = hyps
+    if exact:
+        ip.exact_casts = set(exact)
     st = ip.start_state(fn, arg_names=['a%d' % i for i in range(fn.arg_count)])
     outs = ip.run(st)
     ctx.absorb(ip, fnpath)
@@ -50,7 +53,9 @@ def run(ctx, cfg, fnpath, uninterpreted=None, inline=(), **kw):
             continue
         start = bst.ghost.get(('iter-start', len(bst.frames), head), 0)
         its.append(Iteration(head, bst, bst.calls[start:], cur, bmap, valid))
-    return Log(ip, fn, outs, its)
+    log = Log(ip, fn, outs, its)
+    log.entries = [(h[1], h[5]) for h in ip.head_states if h[0] == fnpath]
+    return log
 
 
 def call_term(c):
